@@ -5,7 +5,6 @@ package main
 import (
 	"bytes"
 	"fmt"
-	"math"
 
 	"capnproto.org/go/capnp/v3"
 	"capnproto.org/go/capnp/v3/encoding/text"
@@ -523,5 +522,4 @@ func (t *textRun) runHistory(i uint64, rng *common.RNG) {
 		rec.Count("history_runs_clean", 1)
 	}
 	rec.Count("history_runs", 1)
-	_ = math.MaxInt32
 }
